@@ -248,7 +248,7 @@ int main(int argc, char **argv) {
           for (int res = 2; res <= (quick ? 3 : 4); res++) { H3Index pr[12]; getPentagons(res, pr);
               for (int pi = 0; pi < 12; pi++) { int bc = getBaseCellNumber(pr[pi]); int polar = bc == 4 || bc == 117;
                   if (quick && !polar && (pi + sd) % 4) continue;
-                  ev_path_across(pr[pi], res == 2 ? 7 : res == 3 ? 16 : 40, (polar ? (quick ? 500 : 3000) : (quick ? 60 : 400)) / (res == 4 ? 10 : 1)); } } }
+                  ev_path_across(pr[pi], res == 2 ? 7 : res == 3 ? 16 : 40, (polar ? (quick ? 500 : 3000) : (quick ? 200 : 600)) / (res == 4 ? 10 : 1)); } } }
         /* all pairs within k<=3(4) for cells of r<=2 (sampled origins), strata at all r, long paths at r>=5 */
         for (int res = 0; res <= 15; res++) {
             CellVec cv = {0};
